@@ -350,7 +350,9 @@ def oracles (prev s : St) (impl : List (String × String)) (prevDials : Nat := 0
   -- a reservation that is not given back starves later downloads of the session (C10: with the budget gone no
   -- idle peer is ever given a request again): the same event read as C10
   let c10 := c10 ++ (c17.map fun v => v.replace "C17 write-cache-reservations-unbalanced" "C10 write-cache-budget-not-returned")
-  c01a ++ c01b ++ c01c ++ c01d ++ c06 ++ c04 ++ c10 ++ c17 ++ c19 ++ c05 ++ c13
+  -- the same event read as C18 (an IP banned for corrupt data must be on the ban list that admission consults)
+  let c18 := c01d.map fun v => v.replace "C01 corrupt-sender-not-banned" "C18 banned-ip-not-recorded"
+  c01a ++ c01b ++ c01c ++ c01d ++ c18 ++ c06 ++ c04 ++ c10 ++ c17 ++ c19 ++ c05 ++ c13
 
 /-- C04: after the final phase (restart + honest seed answering every request) the torrent must be
 complete with correct files. -/
